@@ -9,6 +9,28 @@ HELPER_PKGS = ["sign/internal/dilithium", "sign/mldsa/mldsa44/internal", "sign/m
 HEDGED = {"ML-DSA-44": "sign/mldsa/mldsa44", "ML-DSA-65": "sign/mldsa/mldsa65", "ML-DSA-87": "sign/mldsa/mldsa87"}
 
 
+QM1 = Q - 1
+#              flavor      k  l  eta tau beta g1bits gamma2     omega ctl
+PARAMS = {"ML-DSA-44": ("mldsa", 4, 4, 2, 39, 78, 17, QM1 // 88, 80, 32), "ML-DSA-65": ("mldsa", 6, 5, 4, 49, 196, 19, QM1 // 32, 55, 48),
+          "ML-DSA-87": ("mldsa", 8, 7, 2, 60, 120, 19, QM1 // 32, 75, 64), "Dilithium2": ("dilithium", 4, 4, 2, 39, 78, 17, QM1 // 88, 80, 32),
+          "Dilithium3": ("dilithium", 6, 5, 4, 49, 196, 19, QM1 // 32, 55, 32), "Dilithium5": ("dilithium", 8, 7, 2, 60, 120, 19, QM1 // 32, 75, 32)}
+
+
+def tla_job(w, i, module, job):
+    d = os.path.join(w, "job%d" % i)
+    os.makedirs(d, exist_ok=True)
+    C.stage_specs(d, "C04")
+    json.dump(job, open(os.path.join(d, "job.json"), "w"))
+    r = C.tlc(d, module, module + ".cfg", workers=1, heap="3g", timeout=3000, stack="256m")
+    vp = os.path.join(d, "verdict.json")
+    if not r.ok or not os.path.exists(vp):
+        raise C.Infra("%s failed:\n%s" % (module, r.tail(40)))
+    v = json.load(open(vp))
+    if not v["done"] or not v.get("sampled", True):
+        raise C.Infra("%s did not reach the end / ran out of squeezed bytes:\n%s" % (module, r.tail(20)))
+    return v, r.distinct
+
+
 def key_of(ln):
     ev = ln["ev"]
     if ev == "helper":
@@ -31,6 +53,7 @@ def run(tier, rep, replay=None):
     lines = C.read_ndjson(tp)
     # hedged signing (explicit rnd) through ML-DSA.Sign_internal, in-tree
     jobs = json.load(open(hj))
+    hedged_got = []
     for param, pkg in HEDGED.items():
         mine = [j for j in jobs if j["Param"] == param]
         if not mine:
@@ -40,6 +63,7 @@ def run(tier, rep, replay=None):
         json.dump(mine, open(ip, "w"))
         C.run([tb, "-test.run", "TestZZVerifHedged", "-test.count=1"], env=dict(os.environ, VERIF_IN=ip, VERIF_OUT=op), timeout=1700, what="hedged recorder " + param)
         for j, got in zip(mine, json.load(open(op))):
+            hedged_got.append((j, got))
             lines.append({"ev": "sign", "param": param, "class": "hedged rnd=" + j["Rnd"][:8], "panics": 0, "sig": got, "ref_sig": j["Want"], "seed": j["Seed"], "msg": j["Mprime"], "hints": []})
     # helper functions: strided in quick, the whole of [0, q) in thorough (chunked)
     tasks = []
@@ -84,6 +108,58 @@ def run(tier, rep, replay=None):
             if k in det and len(det[k]) > 200:
                 det[k] = det[k][:200] + "..."
         rep.violation(key_of(ln), {"observed": det, "explain": "line rejected by Trace_Dsa.tla"})
+    # ---- TLC recomputes key generation and decides verification from FIPS 204 / Dilithium 3.1 itself for a sample of the run
+    hx = lambda h: list(bytes.fromhex(h))
+    rnd = random.Random(C.SEED)
+    tjobs = []
+    per = 3 if thorough else 1
+    for param, (flavor, k, l, eta, tau, beta, g1bits, gamma2, omega, ctl) in PARAMS.items():
+        kg = [x for x in lines if x["ev"] == "keygen" and x["param"] == param and not x["panics"]]
+        rnd.shuffle(kg)
+        for x in kg[:per]:
+            tjobs.append(("MLDSAKeyGenJob", {"flavor": flavor, "k": k, "l": l, "eta": eta, "xi": hx(x["seed"]), "pk": hx(x["pk"]), "sk": hx(x["sk"])}, param, "keygen"))
+        skof = {x["seed"]: x["sk"] for x in kg}
+        sg = [x for x in lines if x["ev"] == "sign" and x["param"] == param and not x["panics"] and not x["class"].startswith("hedged") and x.get("seed") in skof]
+        rnd.shuffle(sg)
+        sbase = {"flavor": flavor, "k": k, "l": l, "eta": eta, "tau": tau, "beta": beta, "g1bits": g1bits, "gamma2": gamma2, "omega": omega, "ctl": ctl}
+        for x in sg[:per]:
+            msg, ctx = hx(x["msg"]), hx(x["ctx"])
+            mprime = ([0, len(ctx)] + ctx + msg) if flavor == "mldsa" else msg
+            tjobs.append(("MLDSASignJob", dict(sbase, sk=hx(skof[x["seed"]]), mprime=mprime, rnd=[0] * 32, sig=hx(x["sig"])), param, "sign:deterministic"))
+        hg = [(j, got) for j, got in hedged_got if j["Param"] == param and j["Seed"] in skof]
+        rnd.shuffle(hg)
+        for j, got in hg[:per]:
+            tjobs.append(("MLDSASignJob", dict(sbase, sk=hx(skof[j["Seed"]]), mprime=hx(j["Mprime"]), rnd=hx(j["Rnd"]), sig=hx(got)), param, "sign:hedged"))
+        ver = [x for x in lines if x["ev"] == "verify" and x["param"] == param and not x["panics"] and x["len_ok"] and x["ctx_ok"]]
+        byclass = {}
+        for x in ver:
+            byclass.setdefault(x["class"].split(" ")[0].split("=")[0], []).append(x)
+        want = ["honest", "z-norm-violated-consistent", "hint-duplicated", "hint-swapped", "ctilde-bit", "hint-padding-nonzero", "z-coefficient"]
+        for cls in (want if thorough else want[:3] + [rnd.choice(want[3:])]):
+            if cls in byclass:
+                x = rnd.choice(byclass[cls])
+                msg, ctx = hx(x["msg"]), hx(x["ctx"])
+                mprime = ([0, len(ctx)] + ctx + msg) if flavor == "mldsa" else msg
+                tjobs.append(("MLDSAVerifyJob", {"flavor": flavor, "k": k, "l": l, "tau": tau, "beta": beta, "g1bits": g1bits, "gamma2": gamma2, "omega": omega, "ctl": ctl,
+                                                 "pk": hx(x["pk"]), "mprime": mprime, "sig": hx(x["sig"]), "accepted": x["accepted"]}, param, "verify:" + cls))
+    fals = copy.deepcopy(tjobs[0][1])
+    fals["pk"][40] ^= 1
+    with ThreadPoolExecutor(min(C.NCPU, 14)) as ex:
+        tres = list(ex.map(lambda ij: tla_job(w, ij[0], ij[1][0], ij[1][1]), enumerate(tjobs + [("MLDSAKeyGenJob", fals, "", "falsified")])))
+    if tres[-1][0]["pk"]:
+        raise C.Infra("MLDSAKeyGenJob accepted a falsified public key")
+    for (module, job, param, cls), (v, _) in zip(tjobs, tres[:-1]):
+        if module == "MLDSAKeyGenJob":
+            for part in ("pk", "sk"):
+                if not v[part]:
+                    rep.violation("standard:%s:keygen:%s" % (param, part), {"xi": bytes(job["xi"]).hex(), "explain": "the library's %s is not the value TLC computes from FIPS 204 / Dilithium 3.1 (MLDSAKeyGenJob.tla)" % part})
+        elif module == "MLDSASignJob":
+            if not v["sig"]:
+                rep.violation("standard:%s:%s" % (param, cls), {"mprime": bytes(job["mprime"]).hex()[:120], "rnd": bytes(job["rnd"]).hex(), "attempts_in_standard": v["attempts"],
+                                                               "explain": "the library's signature is not the one TLC computes from Sign_internal (MLDSASignJob.tla)"})
+        elif not v["agrees"]:
+            rep.violation("standard:%s:%s:%s" % (param, cls, "accepted" if job["accepted"] else "rejected"),
+                          {"conditions": {k2: v[k2] for k2 in ("hint_ok", "z_ok", "ctilde_ok")}, "sig": bytes(job["sig"]).hex()[:120], "explain": "the library's verdict differs from Verify_internal executed by TLC (MLDSAVerifyJob.tla)"})
     good = [i for i in range(len(lines)) if i not in set(bad)]
     can = []
     gv = [i for i in good if lines[i]["ev"] == "verify" and not lines[i]["accepted"] and lines[i]["class"].startswith("hint-duplicated")]
@@ -100,19 +176,21 @@ def run(tier, rep, replay=None):
         if b2 != list(range(len(can))):
             raise C.Infra("binding canary accepted")
     ver = [l for l in lines if l["ev"] == "verify"]
+    states_t = sum(x[1] for x in tres)
+    rep.add(tlc_recompute_states=states_t)
     rep.add(states=max(1, r.distinct), transitions=max(1, r.generated), traces_validated_against_impl=len(lines) + hblocks, keygen=sum(1 for l in lines if l["ev"] == "keygen"),
-            sign=sum(1 for l in lines if l["ev"] == "sign"), hedged=len(jobs), verify=len(ver), verify_classes=sorted({l["class"].split(" ")[0].split("=")[0] for l in ver}),
+            sign=sum(1 for l in lines if l["ev"] == "sign"), hedged=len(jobs), verify=len(ver), tlc_recomputed=len(tjobs), tlc_recomputed_kinds=sorted({j[3] for j in tjobs}), verify_classes=sorted({l["class"].split(" ")[0].split("=")[0] for l in ver}),
             z_norm_violated_consistent=sum(1 for l in ver if l["class"].startswith("z-norm-violated")), helper_values=hvals, helper_blocks=hblocks,
             helper_domain="complete [0,q) for power2round / decompose / useHint / le2qModQ (default build), strided under purego" if thorough else "every 211th value of [0,q) plus corner sets")
     for l in [x for x in ver if x["class"].startswith("hint")][:2] + [x for x in lines if x["ev"] == "sign"][:1]:
         rep.sample({k: (v if not isinstance(v, str) or len(v) < 80 else v[:80] + "...") for k, v in l.items() if k != "hints"})
-    rep.assumptions += ["byte-for-byte comparison of keys and signatures and the commitment-hash fact of verification use a plain transcription of FIPS 204 / Dilithium 3.1 (harness/drivers/mldsaref: int64 arithmetic mod q, golang.org/x/crypto/sha3); no executable TLA+ of the full signing algorithm is run (an ML-DSA signature takes several rejection-loop iterations of k*l NTT products; the scalar building blocks and the decoding rules are what TLC evaluates)",
+    rep.assumptions += ["byte-for-byte comparison of keys and signatures and the commitment-hash fact of verification use a plain transcription of FIPS 204 / Dilithium 3.1 (harness/drivers/mldsaref: int64 arithmetic mod q, golang.org/x/crypto/sha3); TLC itself recomputes key generation (MLDSAKeyGenJob.tla), deterministic and hedged signatures through the whole rejection loop (MLDSASignJob.tla) and executes Verify_internal (MLDSAVerifyJob.tla) for a sample of the run's keys, messages and signatures of every parameter set",
                         "hedged signing is exercised through the unexported Sign_internal entry point with explicit rnd; the public API's own randomness cannot be injected",
                         "quick evaluates the rounding functions on every 211th value of [0, q) plus corner sets; thorough on all of [0, q)"]
 
 
 MANIFEST = {
- "text": "HintBits.tla is FIPS 204 HintBitPack / HintBitUnpack; MC_HintBits checks for EVERY hint string and vector of a toy size that unpack(pack(h)) = h and that an accepted string is the canonical packing of its vector (TLC finds the seeded deviation that lets indices repeat). DilithiumHelpers.tla states Power2Round, Decompose, MakeHint, UseHint (both gamma2) and the modular reductions; TLC evaluates them on the implementation's outputs - every 211th value of [0, q) x {0, 1} plus corner sets in quick, the complete domain in thorough - under the default and purego builds. The driver compares public key, private key and deterministic signature bytes of the three ML-DSA and three Dilithium parameter sets with a transcription of the standards (structured and random seeds, messages of 0 / 1 / 33 / 200 bytes, contexts of 0 / 1 / 255 bytes) and, through Sign_internal, hedged signatures with explicit rnd. Verification is judged by TLC from recorded facts: accepted iff lengths and context length are right, HintBitUnpack (run by TLC on the recorded hint bytes) succeeds, max |z| < gamma1 - beta and the recomputed commitment hash equals c~; exercised on honest signatures, altered c~ / z / message / context / key, 256-byte contexts, wrong lengths, z coefficients set to +-(gamma1-beta), gamma1-beta-1, +-gamma1, CONSISTENT signatures whose z violates the bound (made by the transcription with the check switched off, so only the norm test can reject them), and hint sections with swapped, duplicated, removed indices, non-zero padding, decreasing / over-large counts.",
- "note": "No executable TLA+ of full ML-DSA signing; seeds and messages are structured plus seeded random (2 random seeds per parameter set quick, 12 thorough).",
- "technique": "TLC exhaustive check of hint (un)packing on toy sizes (with seeded deviation) + TLC evaluation of FIPS 204 rounding/reduction contracts on dumped domains + TLC judgement of recorded verifications (HintBitUnpack executed in TLA+) + differential against a transcription of FIPS 204 / Dilithium 3.1",
+ "text": "MLDSAKeyGenJob.tla, MLDSASignJob.tla and MLDSAVerifyJob.tla are FIPS 204 KeyGen_internal, Sign_internal (rejection loop included: ExpandMask, HighBits, SampleInBall, the norm tests, MakeHint, sigEncode; attempts repeat the program of hash jobs with kappa advanced) and Verify_internal - and their Dilithium 3.1 variants - as executable behaviours for every parameter set (Keccak job machine, ExpandA / ExpandS rejection sampling, NTT by layers with 32-bit-safe modular products, Power2Round, UseHint, encodings): TLC recomputes pk / sk of sampled seeds, deterministic and hedged signature bytes of sampled messages, and decides verification of sampled honest, norm-violating, hint-malformed and altered signatures of the run itself, after rejecting a falsified public key. HintBits.tla is FIPS 204 HintBitPack / HintBitUnpack; MC_HintBits checks for EVERY hint string and vector of a toy size that unpack(pack(h)) = h and that an accepted string is the canonical packing of its vector (TLC finds the seeded deviation that lets indices repeat). DilithiumHelpers.tla states Power2Round, Decompose, MakeHint, UseHint (both gamma2) and the modular reductions; TLC evaluates them on the implementation's outputs - every 211th value of [0, q) x {0, 1} plus corner sets in quick, the complete domain in thorough - under the default and purego builds. The driver compares public key, private key and deterministic signature bytes of the three ML-DSA and three Dilithium parameter sets with a transcription of the standards (structured and random seeds, messages of 0 / 1 / 33 / 200 bytes, contexts of 0 / 1 / 255 bytes) and, through Sign_internal, hedged signatures with explicit rnd. Verification is judged by TLC from recorded facts: accepted iff lengths and context length are right, HintBitUnpack (run by TLC on the recorded hint bytes) succeeds, max |z| < gamma1 - beta and the recomputed commitment hash equals c~; exercised on honest signatures, altered c~ / z / message / context / key, 256-byte contexts, wrong lengths, z coefficients set to +-(gamma1-beta), gamma1-beta-1, +-gamma1, CONSISTENT signatures whose z violates the bound (made by the transcription with the check switched off, so only the norm test can reject them), and hint sections with swapped, duplicated, removed indices, non-zero padding, decreasing / over-large counts.",
+ "note": "TLC recomputation per parameter set: 1 key generation, 1 deterministic and 1 hedged signature, 4 verifications in quick; 3 / 3 / 3 / 7 in thorough; seeds and messages are structured plus seeded random (2 random seeds per parameter set quick, 12 thorough).",
+ "technique": "executable FIPS 204 KeyGen / Sign / Verify in TLA+ recomputing sampled outputs and verdicts + TLC exhaustive check of hint (un)packing on toy sizes (with seeded deviation) + TLC evaluation of FIPS 204 rounding/reduction contracts on dumped domains + TLC judgement of recorded verifications (HintBitUnpack executed in TLA+) + differential against a transcription of FIPS 204 / Dilithium 3.1",
 }
